@@ -447,7 +447,6 @@ func fieldPath(v ssa.Value) string {
 	return ""
 }
 
-
 // colObject is the ColumnData of one iteration of a streamer column loop: built by a constructor call or in place.
 type colObject struct {
 	Val                  ssa.Value // the *ColumnData
